@@ -244,7 +244,7 @@ theorem body_decrqm_eq (e : Emu) (pd : Int) : evalBody TermBodies.body_decrqm []
 /-! ### RIS -/
 
 theorem body_ris_eq (e : Emu) : evalBody TermBodies.body_ris [] [] e = .ok (ris e) := by
-  simp only [TermBodies.body_ris, TermBodies.stmt_ris, ris]
+  simp only [TermBodies.body_ris, TermBodies.stmt_ris, ris, risF]
   body_norm
   have hh : 0 ≤ gridHeight e.primary e.alt e.altActive := Int.natCast_nonneg _
   have hw : 0 ≤ gridWidth e.primary e.alt e.altActive := by
